@@ -197,7 +197,7 @@ def build_target(us, t, workdir, extra_defines=()):
 
 def cbmc_cmd(t, gb, backend):
     cmd = ['cbmc', gb] + [c for c in CBMC_BASE if c not in t.no_checks] + t.flags
-    if t.unwind is not None: cmd += ['--unwind', str(t.unwind), '--unwinding-assertions']
+    if t.unwind is not None: cmd += ['--unwind', str(t.unwind)] + ([] if getattr(t, 'no_unwinding_assertions', False) else ['--unwinding-assertions'])
     for u in t.unwindset: cmd += ['--unwindset', u]
     if t.unwindset and t.unwind is None: cmd += ['--unwinding-assertions']
     if t.object_bits: cmd += ['--object-bits', str(t.object_bits)]
@@ -205,6 +205,23 @@ def cbmc_cmd(t, gb, backend):
     elif backend == 'cvc5': cmd += ['--cvc5']
     elif backend == 'z3': cmd += ['--z3']
     return cmd
+
+
+def bounded_fallback(us, t, workdir, tier, log):
+    """contract check of one target with the spec's loop contracts removed: small world (-DV_MAXSZ=6), loops unwound 8 times, no
+    unwinding assertions.  Returns only FAILED contract obligations (postconditions, assertions, preconditions of replaced callees)."""
+    import copy
+    fns = set([t.enforce] + list(t.functions))
+    u2 = copy.copy(us); u2.name = us.name + '__noloops'
+    u2.spec = {k: v for k, v in us.spec.items() if not (k[0] == 'loop' and (k[1] in fns or any(k[1].startswith(f + '__') for f in fns if f)))}
+    extract(u2, workdir)
+    t2 = copy.copy(t); t2.loops = False; t2.unwind = 8; t2.no_unwinding_assertions = True
+    t2.defines = list(t.defines) + ['V_MAXSZ=((size_t)6)']; t2.strength = 'B(fallback: small world, 8 unwindings)'
+    ob, cmd = run_target(u2, t2, workdir, tier, log)
+    bad = [o for o in ob if o.status == 'FAILURE' and CANARY not in o.desc and ('postcondition' in o.name or '.assertion.' in o.name or '.precondition.' in o.name)]
+    for o in bad: o.desc += ' [bounded fallback: the loop contract no longer matches the code]'
+    if bad: t.strength = t2.strength; bad = bad + [o for o in ob if CANARY in o.desc]
+    return bad, cmd
 
 
 def run_target(us, t, workdir, tier, log):
@@ -401,7 +418,18 @@ def check_property(prop, tier='quick', seed=0, meta=None, only_unit=None, only_t
             ob, cmd = run_target(u, t, workdir, tier, log)
             return (u, t, ob, cmd, None)
         except Undecided as e:
-            return (u, t, [], '', str(e))
+            msg = str(e)
+            if 'goto-cc failed' in msg and ('__CPROVER_loop_invariant' in msg or '__CPROVER_decreases' in msg):
+                # a loop contract of the spec no longer compiles against the (changed) loop: the unbounded proof is gone, but the function
+                # contract can still be tested without the loop contracts in a small world with unwound loops.  A failed postcondition /
+                # assertion there is a real counterexample to the contract (reported); a pass decides nothing (stays UNDECIDED).
+                try:
+                    fo, cmd = bounded_fallback(u, t, workdir, tier, log)
+                    if fo: return (u, t, fo, cmd, None)
+                    msg += '\n(bounded fallback without loop contracts found no violation: still undecided)'
+                except Exception as e2:
+                    msg += '\n(bounded fallback failed: %s)' % str(e2)[:300]
+            return (u, t, [], '', msg)
         except Exception as e:
             return (u, t, [], '', 'crash: %s\n%s' % (e, traceback.format_exc()[-1500:]))
     with ThreadPoolExecutor(max_workers=NCPU) as pool:
